@@ -13,9 +13,11 @@ theorem shapeD_logpdf_eq (lpois : ℝ → ℝ → ℝ) (lnorm : ℝ → ℝ → 
     Gen.shapeD_logpdf realPrim lpois lnorm s0 s1 slo shi b0 b1 blo bhi hl0 hl1 hh0 hh1 p_sysH p_mu p_sysN d0 d1 a0 a1 = Gen.shapeD_logpdf_ref realPrim lpois lnorm s0 s1 slo shi b0 b1 blo bhi hl0 hl1 hh0 hh1 p_sysH p_mu p_sysN d0 d1 a0 a1 := by
   unfold Gen.shapeD_logpdf Gen.shapeD_logpdf_ref
   simp only [C01.lit0, C01.lit1]
-  split_ifs <;> first
-    | (simp (config := { maxSteps := 2000000 }) only [Gen.shapeD_bin0, Gen.shapeD_bin1, C01.lit0, C01.lit1, if_true, if_false, *] <;> first | rfl | (norm_num <;> first | rfl | ring1))
-    | (exfalso; linarith)
+  first
+    | (split_ifs <;> first
+        | (simp (config := { maxSteps := 2000000 }) only [Gen.shapeD_bin0, Gen.shapeD_bin1, C01.lit0, C01.lit1, if_true, if_false, *] <;> first | rfl | (norm_num <;> first | rfl | ring1))
+        | (exfalso; linarith))
+    | (simp only [Gen.shapeD_bin0, Gen.shapeD_bin1, C01.lit0, C01.lit1] <;> first | rfl | (norm_num <;> first | rfl | ring1 | ring_nf))
 
 set_option maxHeartbeats 3200000 in
 /-- shapeE: `Model.logpdf` as computed = the template, for all parameters, all data and all positive yields / uncertainties -/
@@ -23,8 +25,22 @@ theorem shapeE_logpdf_eq (lpois : ℝ → ℝ → ℝ) (lnorm : ℝ → ℝ → 
     Gen.shapeE_logpdf realPrim lpois lnorm s0 b0 hl0 hh0 blo bhi p_sysH p_mu p_sysN d0 a0 a1 = Gen.shapeE_logpdf_ref realPrim lpois lnorm s0 b0 hl0 hh0 blo bhi p_sysH p_mu p_sysN d0 a0 a1 := by
   unfold Gen.shapeE_logpdf Gen.shapeE_logpdf_ref
   simp only [C01.lit0, C01.lit1]
-  split_ifs <;> first
-    | (simp (config := { maxSteps := 2000000 }) only [Gen.shapeE_bin0, C01.lit0, C01.lit1, if_true, if_false, *] <;> first | rfl | (norm_num <;> first | rfl | ring1))
-    | (exfalso; linarith)
+  first
+    | (split_ifs <;> first
+        | (simp (config := { maxSteps := 2000000 }) only [Gen.shapeE_bin0, C01.lit0, C01.lit1, if_true, if_false, *] <;> first | rfl | (norm_num <;> first | rfl | ring1))
+        | (exfalso; linarith))
+    | (simp only [Gen.shapeE_bin0, C01.lit0, C01.lit1] <;> first | rfl | (norm_num <;> first | rfl | ring1 | ring_nf))
+
+set_option maxHeartbeats 3200000 in
+/-- shapeF: `Model.logpdf` as computed = the template, for all parameters, all data and all positive yields / uncertainties -/
+theorem shapeF_logpdf_eq (lpois : ℝ → ℝ → ℝ) (lnorm : ℝ → ℝ → ℝ → ℝ) (s0 s1 es0 es1 b0 b1 u0 u1 eb0 eb1 p_mu p_uncorr_0 p_uncorr_1 p_stat_SR_0 p_stat_SR_1 d0 d1 a0 a1 a2 a3 : ℝ) (_hs0 : 0 < s0) (_hs1 : 0 < s1) (_hes0 : 0 < es0) (_hes1 : 0 < es1) (_hb0 : 0 < b0) (_hb1 : 0 < b1) (_hu0 : 0 < u0) (_hu1 : 0 < u1) (_heb0 : 0 < eb0) (_heb1 : 0 < eb1) :
+    Gen.shapeF_logpdf realPrim lpois lnorm s0 s1 es0 es1 b0 b1 u0 u1 eb0 eb1 p_mu p_uncorr_0 p_uncorr_1 p_stat_SR_0 p_stat_SR_1 d0 d1 a0 a1 a2 a3 = Gen.shapeF_logpdf_ref realPrim lpois lnorm s0 s1 es0 es1 b0 b1 u0 u1 eb0 eb1 p_mu p_uncorr_0 p_uncorr_1 p_stat_SR_0 p_stat_SR_1 d0 d1 a0 a1 a2 a3 := by
+  unfold Gen.shapeF_logpdf Gen.shapeF_logpdf_ref
+  simp only [C01.lit0, C01.lit1]
+  first
+    | (split_ifs <;> first
+        | (simp (config := { maxSteps := 2000000 }) only [Gen.shapeF_bin0, Gen.shapeF_bin1, C01.lit0, C01.lit1, if_true, if_false, *] <;> first | rfl | (norm_num <;> first | rfl | ring1))
+        | (exfalso; linarith))
+    | (simp only [Gen.shapeF_bin0, Gen.shapeF_bin1, C01.lit0, C01.lit1] <;> first | rfl | (norm_num <;> first | rfl | ring1 | ring_nf))
 
 end Pyhf.Props.C02
